@@ -51,22 +51,9 @@ theorem nextBar_eq (s : StandardDeviation F) (b : Bar F) : s.nextBar b = s.next 
   unfold nextBar
   cases h : s.next b.close <;> simp [h]
 
-/-- `reset` rebuilds exactly the state `new` builds (state equality: any history, any values) -/
-theorem reset_eq (s : StandardDeviation F) (h : WF s) : s.reset = some (fresh s.period) := by
-  unfold reset
-  simp [fill_all _ _ _ h.size, fresh]
-
 /-- the `mean()` accessor reads the running mean field -/
 theorem mean_eq (s : StandardDeviation F) : s.mean = s.m := rfl
 
 theorem period_fn_eq (s : StandardDeviation F) : s.period_fn = s.period := rfl
-
-theorem display_eq (fmt : F → String) (s : StandardDeviation F) :
-    display fmt s = "SD(" ++ toString s.period ++ ")" := rfl
-
-theorem default_eq : (default_ : Option (StandardDeviation F)) = some (fresh 9) := by
-  unfold default_
-  rw [new_eq]
-  simp [unwrap, isizeMax]
 
 end TaRs.Gen.StandardDeviation
